@@ -238,8 +238,9 @@ class SigmaFilter(SigmaRuleBase):
         #   - the "them" keyword: "1 of them"    -> "1 of PREFIX_*"
         # Sigma keywords (not, and, or, all, any, of, 1) are left unchanged.
         #
-        # The regex matches a single Sigma condition token: an optional leading `*`
-        # (wildcard prefix) or a letter, followed by alphanumerics, `*`, `_`, or `-`.
+        # The regex matches a single Sigma condition token consisting of the characters the
+        # condition grammar allows in identifiers and patterns: alphanumerics, `*`, `_`, or `-`.
+        # Identifiers can also start with a digit or an underscore.
         # Wildcards are only valid at the start or end of a Sigma identifier pattern
         # but this regex accepts any occurrence; the Sigma condition parser is
         # responsible for rejecting syntactically invalid patterns at parse time.
@@ -254,7 +255,7 @@ class SigmaFilter(SigmaRuleBase):
             return prefix + "_" + token
 
         filter_condition = re.sub(
-            r"[a-zA-Z*][a-zA-Z0-9*_-]*",
+            r"[a-zA-Z0-9*_-]+",
             _replace_token,
             self.filter.condition[0],
         )
